@@ -714,7 +714,10 @@ def check_C20(ctx):
     cases = os.path.join(ctx.work, "events.ndjson")
     events_run(ctx, "ParamsFull" if thorough else "ParamsQuick", 1, cases)
     events_run(ctx, "ParamsBig", 2, cases)
-    events_run(ctx, "ParamsSmall", 3 if thorough else 2, cases)
+    events_run(ctx, "ParamsSmall", 2, cases)
+    if thorough:
+        # (ParamsSmall at three iterators is 66 M states and never finished inside its time limit)
+        events_run(ctx, "ParamsTiny", 3, cases)
     # seed-generated parameter sets on the lattice (the model stays the oracle): every behaviour incl. one abandoned predecessor
     for salt in ([3, 2, 1, 0] if thorough else [0]):
         rand_events_module(ctx, 24, salt)
@@ -821,9 +824,12 @@ def check_C18(ctx):
     consts = dict(NPool="6", NLen="2", MaxOps="3", EmptyClears="TRUE", MutClears="TRUE", Emit="TRUE")
     inv = ["Pure", "CacheCoherent", "EmitCase"]
     if thorough:
-        tlc(ctx, "CurveCache", "MC_CurveCache_6_2_4", dict(spec="Spec", invariants=inv, constants=dict(consts, MaxOps="4")),
+        # (four operations over the full pool are > 13 M sequences since clone_from was added: the full pool at three, half of it at four)
+        tlc(ctx, "CurveCache", "MC_CurveCache_6_2_3", dict(spec="Spec", invariants=inv, constants=consts), workers=14, timeout=3000,
+            cases_file=cases)
+        tlc(ctx, "CurveCache", "MC_CurveCache_3_2_4", dict(spec="Spec", invariants=inv, constants=dict(consts, NPool="3", MaxOps="4")),
             workers=14, timeout=3000, cases_file=cases)
-        tlc(ctx, "CurveCache", "MC_CurveCache_2_1_5", dict(spec="Spec", invariants=inv, constants=dict(consts, NPool="2", NLen="1", MaxOps="5")),
+        tlc(ctx, "CurveCache", "MC_CurveCache_2_1_4", dict(spec="Spec", invariants=inv, constants=dict(consts, NPool="2", NLen="1", MaxOps="4")),
             workers=14, timeout=3000, cases_file=cases)
     else:
         tlc(ctx, "CurveCache", "MC_CurveCache_6_2_3", dict(spec="Spec", invariants=inv, constants=consts), workers=14, timeout=3000,
